@@ -13,7 +13,7 @@ structure Good (inp : List Rune) : Prop where
 of the first character of that stretch -/
 def TokAt (inp : List Rune) (t : Tok) : Prop :=
   ∃ pre sr rest, inp = pre ++ sr ++ rest ∧ t.lit = encAll sr ∧
-    t.line = ((posOf pre).length : Int) ∧ t.col = 1 + (((posOf pre).headD 0 : Nat) : Int)
+    t.line = ((linesOf pre).length : Int) ∧ t.col = 1 + (((linesOf pre).headD 0 : Nat) : Int)
 
 theorem emit_tokAt (hg : Good inp) (l : L) (t0 : TT) (h : SInv inp l) :
     ∃ tok, (l.emit t0).out = tok :: l.out ∧ tok.typ = t0 ∧ TokAt inp tok := by
@@ -35,6 +35,8 @@ theorem emit_mem (hg : Good inp) (l : L) (t0 : TT) (h : SInv inp l) (ho : l.out 
   rw [hout, ho] at ht
   simp only [List.mem_cons, List.not_mem_nil, or_false] at ht
   subst ht; exact hat
+
+attribute [local irreducible] L.peek L.skip L.next L.backup L.dropS L.acceptRun L.acceptUntil L.skipRun L.skipUntil L.emit emitIfPending L.peekAhead L.ignore L.skipAhead L.continueToMatchingBrace L.continueToMatchingQuote TInv Inv Track SInv SNil Suf
 
 theorem frag_outputCode (hg : Good inp) (l : L) (h : SNil inp l) (ho : l.out = []) :
     ∀ t ∈ (lexGohtOutputCode l).1.out, TokAt inp t := by
@@ -60,5 +62,65 @@ theorem frag_silentScript (hg : Good inp) (l : L) (h : SNil inp l) (ho : l.out =
     subst ht; rw [htyp] at hty; cases hty
   · intro t ht _
     exact emit_mem hg _ _ (sinv_acceptUntil hg.wf _ _ (snil_sinv _ (snil_skipRun hg.wf _ _ h1))) (by simp [ho]) t ht
+
+/-- reading up to the closing bracket, putting the bracket back, emitting: the token is the text between the brackets -/
+theorem brace_emit (hg : Good inp) (l : L) (e : Nat) (t0 : TT) (h : SNil inp l) (ho : l.out = [])
+    (hne : ((l.continueToMatchingBrace e).2 == eof) = false) :
+    ∀ t ∈ (((l.continueToMatchingBrace e).1.backup.emit t0).skip).1.out, TokAt inp t := by
+  have hb := sinv_brace hg.wf l e (snil_sinv l h)
+  have hbk := sinv_backup hg.wf _ hb.1 (hb.2 (by simpa using hne))
+  intro t ht
+  rw [skip_out] at ht
+  exact emit_mem hg _ t0 hbk (by simp [ho]) t ht
+
+theorem frag_objectRef (hg : Good inp) (l : L) (h : SNil inp l) (ho : l.out = []) :
+    ∀ t ∈ (lexObjectReference l).1.out, t.typ ≠ .error → TokAt inp t := by
+  unfold lexObjectReference
+  simp only []
+  have h1 := snil_skip hg.wf l h
+  split
+  · intro t ht hty
+    unfold L.errorf at ht
+    split at ht
+    · simp [ho] at ht
+    · simp [ho] at ht; subst ht; exact absurd rfl hty
+  · rename_i hne
+    intro t ht _
+    exact brace_emit hg _ _ _ h1 (by simp [ho]) (by simpa using hne) t ht
+
+theorem frag_attrDynamicValue (hg : Good inp) (l : L) (h : SNil inp l) (ho : l.out = []) :
+    ∀ t ∈ (lexGohtAttributeDynamicValue l).1.out, t.typ ≠ .error → TokAt inp t := by
+  unfold lexGohtAttributeDynamicValue
+  simp only []
+  have h1 := snil_peek hg.wf _ (snil_skip hg.wf l h)
+  have herr : ∀ (l' : L) (m : EMsg), l'.out = [] → ∀ t ∈ (l'.errorf m).1.out, t.typ ≠ .error → TokAt inp t := by
+    intro l' m ho' t ht hty
+    unfold L.errorf at ht
+    split at ht
+    · simp [ho'] at ht
+    · simp [ho'] at ht; subst ht; exact absurd rfl hty
+  split
+  · exact herr _ _ (by simp [ho])
+  · split
+    · exact herr _ _ (by simp [ho])
+    · rename_i hne
+      intro t ht _
+      exact brace_emit hg _ _ _ (snil_skip hg.wf _ h1) (by simp [ho]) (by simpa using hne) t ht
+
+theorem frag_attributesCommand (hg : Good inp) (l : L) (h : TInv inp l) (ho : l.out = []) :
+    ∀ t ∈ (lexGohtAttributeCommand l).1.out, t.typ ≠ .error → TokAt inp t := by
+  unfold lexGohtAttributeCommand
+  simp only []
+  have h1 := snil_skip hg.wf _ (snil_skipUntil hg.wf _ Gen.lexGohtAttributeCommand_skipUntil1
+    (snil_skipUntil hg.wf _ Gen.lexGohtAttributeCommand_skipUntil0 (snil_ignore l h)))
+  split
+  · intro t ht hty
+    unfold L.errorf at ht
+    split at ht
+    · simp [ho] at ht
+    · simp [ho] at ht; subst ht; exact absurd rfl hty
+  · rename_i hne
+    intro t ht _
+    exact brace_emit hg _ _ _ h1 (by simp [ho]) (by simpa using hne) t ht
 
 end GL
